@@ -394,7 +394,19 @@ Section Guards.
       ("GRAPH.NODE*SUCCESSORS", top_int (fun id => negb (0 <? id)));
       ("GRAPH.NODES*HISTORY", top_int (fun pos => negb (0 <=? pos)));
       ("GRAPH.NODE*HISTORY", top_int (fun pos => negb (0 <=? pos)));
-      ("GRAPH.EDGE*HISTORY", top_int (fun pos => negb (0 <=? pos))) ].
+      ("GRAPH.EDGE*HISTORY", top_int (fun pos => negb (0 <=? pos)));
+      (* documented (vector.rs): "If the size is <0 or the sparcity not in [0,1] this acts as a NOOP",
+         "If the size is <0 or max < min ...", "If size < 0 or standard deviation < 0 ..." (the operands are consumed);
+         the code also refuses max = min and a deviation that is not finite *)
+      ("BOOLVECTOR.RAND", fun s => match st_int s, st_float s with
+                                   | size :: _, sp :: _ => (size <? 0) || f_is_nan sp || flt sp f_zero || fgt sp f_one
+                                   | _, _ => false end);
+      ("INTVECTOR.RAND", fun s => match st_int s with
+                                  | size :: hi :: lo :: _ => (size <? 0) || (hi <=? lo)
+                                  | _ => false end);
+      ("FLOATVECTOR.RAND", fun s => match st_int s, st_float s with
+                                    | size :: _, _ :: sd :: _ => (size <? 0) || negb (f_is_finite sd) || flt sd f_zero
+                                    | _, _ => false end) ].
 
   Fixpoint gd_lookup (t : list (string * (state -> bool))) (n : string) : option (state -> bool) :=
     match t with
